@@ -790,6 +790,13 @@ class _Ops:
             if isinstance(e, AssertionError) and self._from_grid_resize(e):
                 self.c["probes"]["grid_resize_precision_assert"] += 1
                 return "expected", e
+            if isinstance(e, RuntimeError) and str(e).startswith("A view was created in no_grad mode") and getattr(self, "nograd_used", False):
+                # torch refuses to use a view (the velocity buffer v of an SVF is a view of its parameters) that was
+                # created under no_grad once its base has been edited in place: a buffer left over from an
+                # inference-style call, read without update() after an in-place parameter change -- the situation in
+                # which the class documentation requires update() first (DESIGN.md section 4.3 / 8)
+                self.c["probes"]["no_grad_view_buffer_after_inplace_edit"] += 1
+                return "expected", e
             return "raised", e
 
     @staticmethod
@@ -1113,6 +1120,17 @@ class _Ops:
         else:
             real = lambda: x.obj(pts, grid=use_grid)
             twin_eval = lambda t_: t_(pts, grid=use_grid)
+        if op.get("nograd"):
+            # inference-style evaluation: whatever is buffered now carries no autograd graph; a later evaluation
+            # with gradients (an optimiser step) must not reuse it
+            real0 = real
+
+            def real():
+                with torch.no_grad():
+                    return real0()
+
+            self.c["probes"]["call_under_no_grad"] += 1
+            self.nograd_used = True
         k = op.get("interrupt")
         if k is not None:
             with Interrupt(int(k)) as mode:
@@ -2227,6 +2245,35 @@ class _Ops:
         except RuntimeError:
             return StepResult("skipped")
         before = self._holds(x.obj)
+        how = op.get("how", "double-float")
+        if how != "double-float":
+            # module-level switches that must not change what the transform evaluates: freezing and unfreezing the
+            # parameters, train()/eval(), zero_grad(), moving to the device it is on
+            def neutral():
+                t_ = x.obj
+                if how == "freeze":
+                    flags = [p.requires_grad for p in t_.parameters()]
+                    t_.requires_grad_(False)
+                    for p, f_ in zip(t_.parameters(), flags):
+                        p.requires_grad_(f_)
+                elif how == "train-eval":
+                    mode = t_.training
+                    t_.eval()
+                    t_.train(mode)
+                elif how == "zero_grad":
+                    t_.zero_grad()
+                else:
+                    t_.to("cpu").to(torch.float32)
+
+            st, r = self.guarded(neutral)
+            bad = self.classify(st, r, x, how)
+            if bad:
+                return bad
+            self.c["checks"]["cast_keeps_state"] += 1
+            self.c["probes"]["module_switch:" + how] += 1
+            if self._holds(x.obj) != before:
+                return StepResult("ok", "cast-changed", [self.viol("C09", "cast-changed-state", x, how, {})])
+            return StepResult("ok", "cast:" + how)  # nothing replaced: model state unchanged
         st, r = self.guarded(lambda: x.obj.double().float())
         bad = self.classify(st, r, x, "double-float")
         if bad:
@@ -2440,7 +2487,7 @@ PROFILES = {
     # weights of operation kinds; observation ops are additionally boosted right after a change
     "C09": {"call": 10, "disp": 9, "update": 2, "clear": 1.5, "data_": 6, "inplace": 5, "sgd": 2, "reset": 2, "grid_": 5,
             "condition_": 4, "copy": 6, "deepcopy": 1.5, "inverse": 3, "link_": 1.5, "compose": 2, "roundtrip": 2,
-            "arm": 2, "interrupt": 3.5, "checkpoint": 3, "restart": 3, "fit": 2.5, "restore": 2, "cast": 1, "hook": 1.2},
+            "arm": 2, "interrupt": 3.5, "checkpoint": 3, "restart": 3, "fit": 2.5, "restore": 2, "cast": 1.6, "hook": 1.2},
     "C07": {"call": 4, "disp": 2, "update": 1, "clear": 0.5, "data_": 5, "inplace": 7, "sgd": 3, "reset": 1.5, "grid_": 1,
             "condition_": 4, "copy": 2, "deepcopy": 0.5, "inverse": 9, "link_": 0.5, "compose": 2.5, "roundtrip": 16,
             "arm": 1, "interrupt": 1, "checkpoint": 1, "restart": 1, "fit": 1.5, "restore": 0.7, "cast": 0.5, "hook": 0.3},
@@ -2619,6 +2666,8 @@ class _Gen:
             op["grid"] = True
         elif how in ("image", "pointset"):
             op["via"] = how
+        if rng.chance(0.15):
+            op["nograd"] = True
         return op
 
     def gen_disp(self, rng):
@@ -2859,6 +2908,10 @@ class _Gen:
         return {"op": "hook", "h": x.hid, "mode": "remove"}
 
     def gen_cast(self, rng):
+        how = rng.weighted([("double-float", 3), ("freeze", 1.5), ("train-eval", 1), ("zero_grad", 1), ("to-same", 1)])
+        if how != "double-float":
+            x = self.pick(rng, lambda y: not self.has_none(y))
+            return None if x is None else {"op": "cast", "h": x.hid, "how": how}
         x = self.pick(rng, lambda y: not self.has_none(y) and not any(kind_of(e.obj) in ("C", "L") for e in self.elems(y)))
         return None if x is None else {"op": "cast", "h": x.hid}
 
@@ -2932,6 +2985,11 @@ class XformEngine:
             o = dict(op)
             o.pop("via")
             out.append(o)
+        for key in ("nograd", "arm"):
+            if op.get(key):
+                o = dict(op)
+                o.pop(key)
+                out.append(o)
         return out
 
     def rule(self, prop: str) -> str:
